@@ -35,3 +35,14 @@ let n_of_hex_be (s : string) : coq_N =
   String.iter (fun c -> acc := BinNat.N.add (BinNat.N.mul !acc (n_of_int 16)) (n_of_int (hexval c))) s; !acc
 
 let split_on c s = String.split_on_char c s
+
+(* decimal numbers of any size (accessory ids are uint64) *)
+let n_of_dec (s : string) : coq_N =
+  let ten = n_of_int 10 in
+  let acc = ref N0 in
+  String.iter (fun ch -> acc := BinNat.N.add (BinNat.N.mul !acc ten) (n_of_int (Char.code ch - 48))) s; !acc
+let dec_of_n (x : coq_N) : string =
+  let ten = n_of_int 10 in
+  let rec go x acc = if x = N0 then acc else
+      go (BinNat.N.div x ten) (String.make 1 (Char.chr (48 + int_of_n (BinNat.N.modulo x ten))) ^ acc) in
+  if x = N0 then "0" else go x ""
